@@ -123,4 +123,77 @@ Definition run_c17 (c : c17case) : list (N * N * N) :=
     end in
   emit (c_id c) 0 ctor_mismatch ctor_violation ++ run_draws st stakes sm 1 (c_id c) (c_draws c).
 
-Definition c17_run (cs : list c17case) : list (N * N * N) := flat_map run_c17 cs.
+
+(* ---------------- histories: one instance used through both traits ---------------- *)
+(* op kinds: 0 = single draw (SamplingStrategy::sample), 1 = sample_quorum, 2 = reset() (decaying sampler only),
+   3 = clone the instance now (from here on the clone gets the same calls with the same random words).
+   out = what the instance returned (a single draw as a one-element committee), clone = what the live clone
+   returned, fresh = what a freshly constructed instance returns for a sample_quorum on the same words. *)
+Record hop := mkHop { o_kind : N; o_prefix : list N; o_tail : tail; o_used : N;
+                      o_out : iout; o_clone : option iout; o_fresh : option iout }.
+Record c17hist := mkHist { h_id : N; h_stakes : list N; h_strat : strategy; h_ops : list hop }.
+Inductive c17any := CPlain (c : c17case) | CHist (h : c17hist).
+
+Definition hop_stream (o : hop) : stream :=
+  draw_stream (mkDraw (o_prefix o) (o_tail o) (o_used o) false IPanic IPanic).
+
+(* state threaded through a history: the model's counters (None once the model lost track, i.e. after a panic),
+   and `clean` = the code's contract promises zeroed counters here (fresh instance, after a completed
+   sample_quorum, after reset()) *)
+Fixpoint run_hist (st : strategy) (stakes : list N) (sm : sampler) (hid : N) (i : N)
+                  (counts : option (list N)) (clean : bool) (ops : list hop) : list (N * N * N) :=
+  match ops with
+  | [] => []
+  | o :: rest =>
+    let s := hop_stream o in
+    let stateless := match st with StDecay _ _ _ => false | _ => true end in
+    (* model *)
+    let '(mism, counts') :=
+      match counts with
+      | None => (false, None)
+      | Some c =>
+        if o_kind o =? 0 then
+          match sample_single sm c s, o_out o with
+          | Ok (v, c') [], IQ [v'] => (negb (v =? v'), Some c')
+          | Panic, IPanic => (false, None)
+          | _, _ => (true, None)
+          end
+        else if o_kind o =? 1 then
+          match sample_quorum_from sm c s, o_out o with
+          | Ok (q, c') [], IQ q' => (negb (list_eqb q q'), Some c')
+          | Panic, IPanic => (false, None)
+          | _, _ => (true, None)
+          end
+        else if o_kind o =? 2 then (false, Some (reset_counts sm c))
+        else (false, Some c)
+      end in
+    (* the property on the implementation's outputs *)
+    let out_ok :=
+      match o_out o with
+      | IPanic => (2 <=? o_kind o)                       (* reset / clone produce nothing; a draw must not panic *)
+      | IQ q => if o_kind o =? 1 then committee_ok st stakes q
+                else forallb (fun v => v <? lenN stakes) q
+      end in
+    let clone_ok := match o_clone o with Some c => iout_eqb c (o_out o) | None => true end in
+    let pure_ok :=
+      if (o_kind o =? 1) && (stateless || clean)
+      then match o_fresh o with Some f => iout_eqb f (o_out o) | None => true end
+      else true in
+    let clean' :=
+      if o_kind o =? 0 then false
+      else if o_kind o =? 1 then (match o_out o with IQ _ => true | IPanic => false end)
+      else if o_kind o =? 2 then true
+      else clean in
+    emit hid i mism (negb (out_ok && clone_ok && pure_ok))
+    ++ run_hist st stakes sm hid (i + 1) counts' clean' rest
+  end.
+
+Definition run_c17hist (h : c17hist) : list (N * N * N) :=
+  match construct_current (h_strat h) (h_stakes h) with
+  | COk sm => run_hist (h_strat h) (h_stakes h) sm (h_id h) 1 (Some (fresh_counts sm)) true (h_ops h)
+  | _ => [(h_id h, 500000, 1)]                             (* histories are only generated for constructible samplers *)
+  end.
+
+Definition run_c17any (c : c17any) : list (N * N * N) :=
+  match c with CPlain c => run_c17 c | CHist h => run_c17hist h end.
+Definition c17_run (cs : list c17any) : list (N * N * N) := flat_map run_c17any cs.
